@@ -50,6 +50,39 @@ var CornerCorpus = []string{
 	"k7/1p6/4b1Qp/2B1p2B/8/1P6/P1P2rq1/2K5 w - - 0 13",
 	"2b3n1/rp1p4/1BR5/p3kp2/P3P3/N1P1K3/RP3PP1/1N3B2 w - f6 0 27",
 	"1rr4k/p2b2p1/4pN2/np2N1B1/P2P2Pp/7Q/1P2BP1P/1q2RR1K w - - 3 28",
+	// a check can be given to a king that still has castling rights and a free
+	// path to its rook (castling out of check must never be generated / played)
+	"rnbqk2r/ppp1bppp/5n2/8/3NP3/8/PPP2PPP/RNBQKB1R w KQkq - 0 6",
+	"rnbqk2r/ppp1bppp/5n2/4p3/4P3/5N2/PPP2PPP/RNBQKB1R w KQkq - 0 5",
+	"r1bqk2r/pppp1ppp/2n2n2/2b1p3/2B1P3/2N2N2/PPPP1PPP/R1BQK2R w KQkq - 6 5",
+	"r1bqk2r/1p1p1nbp/1Np2pp1/p1n1p3/3PPPQP/P1P4N/1P4P1/R1B1KB1R w KQkq - 5 13", // g4e6+
+	"r3kb1r/1ppqpp1p/p3b1p1/3p4/PP1n1nP1/2NPP3/1BP1QP1P/R3KBNR b KQkq - 3 12",   // d4f3+
+	"rnbqk2r/pppp4/5np1/4pp1p/2P1N3/bP1P2PP/P3PP2/RNBQKB1R w KQkq - 1 9",        // e4f6+
+	"r1bqkb2/ppp1p1p1/2Np3r/5pnp/1P2N1P1/3BP2P/P1PP1P2/R1BQK2R b KQq - 3 11",    // g5f3+
+	"rn2k2r/pbpqppbp/3p1n2/1P4p1/P2PP3/R7/QP3PPP/1NB1KBNR w Kkq - 6 9",          // a2f7+
+	"rnb1kbnr/1p1ppp1p/p2q2p1/2p5/2P3PP/BP2P2N/P1QPBP2/RN2K2R b KQkq g3 0 9",    // d6d2+
+	"rn1qkbn1/ppp1p1p1/3pBP2/7r/5P1p/N5PN/PPPP3P/R1BQK2R b KQ - 0 9",            // h5e5+
+	"r1bqk2r/ppp2pp1/n2pp3/5n1p/2Pb1PPP/1Q1R4/PP1PP3/RNB1KBN1 w Qkq - 0 9",      // b3a4+
+	"1rbqk2r/p1ppnppp/1pn5/4p3/1PN5/7N/P1PPP1PP/R1BQKB1R w KQk - 3 9",           // c4d6+
+	"r3kb1r/pbp3pp/7R/n2ppp2/1p3PP1/N3P3/PPPP4/R1BQ1BNK w kq - 1 13",            // f1b5+
+	"r1N1k1nr/1ppp3p/n2b2p1/4ppq1/3P4/7N/PPP1PPPP/R1BQKB1R w KQkq - 1 7",        // c8d6+
+	"rnbqkb1r/p1pp1ppp/1p6/4pn2/8/P2P1NP1/1PP1PPBP/RNBQK2R b KQkq - 0 5",        // f8b4+
+	"r1bNkbr1/pppp1ppp/2P5/4p3/8/NP2n3/P2PPPPP/R1BQK2R b KQq - 2 9",             // e3c2+
+	"rnb1k2r/pppp1p1p/5np1/2P1p3/P3P3/4BN2/RP2K1PP/1N1Q1B1R w kq - 1 12",        // d1d7+
+	"rn2k2r/p1p2ppp/1p3q1n/3p4/1b6/NPQ3P1/P1P2P1P/R3KBNb w Qkq - 0 12",          // f1b5+
+	"2bqk2r/rpppp2p/3n1Qpb/8/3nP3/2N2P2/PPPP2PP/R1B1KBNR w KQk - 1 12",          // f6e7+
+	"rnbqk2r/p2p1p1N/1p2p3/2p2np1/PPP4b/4PQP1/3P1P1P/RNB1KB1R w KQkq - 0 10",    // h7f6+
+	"1nb1kb1r/rp2n1pp/p1p5/QB1q1p2/8/2P1P1PN/PP1P1P1P/RNB1K2R b KQk - 9 12",     // d5d2+
+	"r3k2r/pb1pnpbp/1Q4p1/1PP5/1P2p3/B3P3/P4PPP/RN2KBNR w KQkq - 0 12",          // b6d8+
+	"rnb2bnr/1p1kp1pp/5q2/pPpp1p2/6P1/B2PPN2/P1P1BP1P/RN1QK2R b KQ - 0 12",      // f6c3+
+	"rnbqk1r1/1p1pnp1p/2pb4/p4Pp1/PP2p2P/N2BP2N/R1PP2P1/2BQK2R b Kq - 1 10",     // d6g3+
+	"rn2k2r/p2p1ppp/b2b1q2/3BpnP1/2P4P/1P6/P2PPP2/RN1QK1NR w KQkq - 1 12",       // d5f7+
+	"r1bq1knr/p1ppb3/np3p1p/1N4p1/P2Q1B2/8/1PP1PPPP/R3KBNR b KQ - 0 12",         // e7b4+
+	"r3kBnr/p1pnq3/1pP2pp1/1P1pp2p/2B2P2/4P3/P1bP2PP/RN1QK1NR w KQkq - 1 13",    // c6d7+
+	"rn2k1nr/pp2p2p/3p3b/2p2Pp1/PqP1B3/RP5N/3PbP1P/1NBQK2R b Kkq - 0 12",        // b4d2+
+	"rnb1k2r/p2p2bp/5q1n/2p1ppN1/1PpPP3/N7/P3BPPP/R1BQ1K1R w kq - 2 13",         // e2h5+
+	"r3kbr1/pp5p/n4PPR/2pp2p1/4P3/5bP1/PPPB1P2/RN1QKB2 w Qq - 0 13",             // f6f7+
+	"rnb1k1nB/1p1p1p1p/p1p5/4p1p1/1bB3PP/4PN2/P1PP1P2/RNqQK2R b KQq - 1 11",     // c1d2+
 }
 
 // mirrorFen flips the board vertically and swaps the colours.
